@@ -5,7 +5,7 @@
      chainable_api.go   Where/Or/Not/Having/Group/Order/Limit/Offset/Select/Distinct/Omit/Joins/Scopes/
                         Unscoped/Table/Model/Clauses(Returning, OrderBy, Locking, OnConflict, From)
      clause/*.go        every MergeClause that carries a slice (where, order_by, group_by, returning),
-                        the scalar ones (limit, locking, on_conflict, from), Where.Build's in-place swap
+                        the scalar ones (limit, locking, on_conflict, from), Where.Build's swap (on a private copy since 12bf8b8)
      callbacks/query.go BuildQuerySQL (fromClause.Joins append), AfterQuery (join trimming)
      callbacks.go       processor.Execute (scopes)
    Go slices are (loc,len,cap) into a heap of backing arrays; [append] writes in place iff
@@ -121,14 +121,18 @@ Definition wnorm (l : list cell) : list cell :=
   | Some (S j) => upd_nth (upd_nth l 0 (nth (S j) l 0)) (S j) (nth 0 l 0)
   | _ => l
   end.
-Definition h_swap (s : slice) : cmd unit :=
+(* Since 12bf8b8 the swap is done on a private copy: where.Exprs = append([]Expression(nil), where.Exprs...)
+   and only when a swap is needed; nothing is written into the (possibly shared) array.  Returns the
+   slice Build reads.  (The copy's two swap writes go to the fresh array: modelled as allocating the
+   swapped content directly.) *)
+Definition h_swap (f : field) (s : slice) : cmd slice :=
   match s with
-  | SNil => ret tt
+  | SNil => ret SNil
   | SArr l n c =>
       xs <- rdc s ;;
       match first_non_or xs 0 with
-      | Some (S j) => wr l 0 (nth (S j) xs 0) ;;; wr l (S j) (nth 0 xs 0)
-      | _ => ret tt
+      | Some (S j) => h_user f (wnorm xs) (grow f 0 (length xs))
+      | _ => ret s
       end
   end.
 
@@ -388,10 +392,10 @@ Definition finish (s : mstmt) (f : fin) : cmd (mstmt * (list Z * list Z)) :=
   s3 <- (if is_query f then
            js <- rdc (sl s2 FJoins) ;; fj <- h_append_each FFromj (sl s2 FFromj) js ;; ret (set_sl s2 FFromj fj)
          else ret s2) ;;
-  (* Statement.Build: Where.Build swaps in place; GroupBy.Build builds Having through Where.Build *)
-  h_swap (sl s3 FWhere) ;;;
-  (if is_query f && k_grpp (sc s3) then h_swap (sl s3 FHaving) else ret tt) ;;;
-  out <- (fun h => (render (abs h s3) f, h, [])) ;;
+  (* Statement.Build: Where.Build swaps on a private copy; GroupBy.Build builds Having through Where.Build *)
+  sw <- h_swap FWhere (sl s3 FWhere) ;;
+  sh <- (if is_query f && k_grpp (sc s3) then h_swap FHaving (sl s3 FHaving) else ret (sl s3 FHaving)) ;;
+  out <- (fun h => (render (abs h (set_sl (set_sl s3 FWhere sw) FHaving sh)) f, h, [])) ;;
   (* AfterQuery: keep the original From joins *)
   let s4 := if is_query f then set_sl s3 FFromj (rtrim (sl s3 FFromj) (slen (sl s3 FJoins))) else s3 in
   ret (push_gp s4 (PFin f), out).
